@@ -1,0 +1,9 @@
+//go:build verif
+
+package h2
+
+// VerifNewProcessors builds a Processors pair from caller-supplied sinks.
+// Verification hook: compiled only with the verif build tag.
+func VerifNewProcessors(cToS, sToC Processor) *Processors {
+	return &Processors{cToS: cToS, sToC: sToC}
+}
